@@ -275,6 +275,79 @@ def qbfs_closed(n, u):
     raise ValueError
 
 
+def _forbes_gamma(n, m):
+    """gamma_n^m of Forbes (2012) for n >= 1, m >= 2, iteratively: gamma_1^2 = 3/8, gamma_1^m = (2m-1)/(2(m-2)) gamma_1^(m-1),
+    gamma_n^m = n(2m+2n-3)/((m+n-3)(2n-1)) gamma_(n-1)^m"""
+    g = Fr(3, 8)
+    for mm in range(3, m + 1):
+        g *= Fr(2 * mm - 1, 2 * (mm - 2))
+    for nn in range(2, n + 1):
+        g *= Fr(nn * (2 * m + 2 * nn - 3), (m + nn - 3) * (2 * nn - 1))
+    return g
+
+
+def _dfact(k):
+    r = 1
+    while k > 1:
+        r *= k
+        k -= 2
+    return r
+
+
+def forbes_FG(n, m):
+    """(F_n^m, G_n^m), Forbes (2012) (A.13), (A.15), exact"""
+    if n == 0:
+        F = Fr(1, 4) if m == 1 else Fr(m * m * _dfact(2 * m - 3), 2 ** (m + 1) * math.factorial(m - 1))
+        G = Fr(_dfact(2 * m - 1), 2 ** (m + 1) * math.factorial(m - 1))
+    elif m == 1:
+        F = Fr(4 * (n - 1) ** 2 * n ** 2 + 1, 8 * (2 * n - 1) ** 2) + (Fr(11, 32) if n == 1 else 0)
+        G = -Fr((2 * n * n - 1) * (n * n - 1), 8 * (4 * n * n - 1)) - (Fr(1, 24) if n == 1 else 0)
+    else:
+        chi = m + n - 2
+        gam = _forbes_gamma(n, m)
+        F = Fr(2 * n * chi * (3 - 5 * m + 4 * n * chi) + m * m * (3 - m + 4 * n * chi),
+               (m + 2 * n - 3) * (m + 2 * n - 2) * (m + 2 * n - 1) * (2 * n - 1)) * gam
+        G = -Fr((2 * n * (m + n - 1) - m) * (n + 1) * (2 * m + 2 * n - 1),
+                (m + 2 * n - 2) * (m + 2 * n - 1) * (m + 2 * n) * (2 * n + 1)) * gam
+    return F, G
+
+
+def forbes_abc(n, m):
+    """Forbes (2012) (A.3), exact"""
+    D = (4 * n * n - 1) * (m + n - 2) * (m + 2 * n - 3)
+    return (Fr((2 * n - 1) * (m + 2 * n - 2) * (4 * n * (m + n - 2) + (m - 3) * (2 * m - 1)), D),
+            Fr(-2 * (2 * n - 1) * (m + 2 * n - 3) * (m + 2 * n - 2) * (m + 2 * n - 1), D),
+            Fr(n * (2 * n - 3) * (m + 2 * n - 1) * (2 * m + 2 * n - 3), D))
+
+
+def forbes_fg(nmax, m):
+    """f_0..f_nmax, g_0..g_nmax (A.18) in double precision from the exact F, G"""
+    f, g = [], []
+    for n in range(nmax + 1):
+        F, G = forbes_FG(n, m)
+        f.append(math.sqrt(float(F) - (g[-1] ** 2 if n else 0.0)))
+        g.append(float(G) / f[-1])
+    return f, g
+
+
+def q2d_forbes(n, m, u, t):
+    """own transcription of Forbes' 2D-Q definition (Opt. Express 20(3) 2483, appendix A): Q_n^m(u^2) u^|m| cos(m t) | sin(|m| t), m != 0"""
+    am = abs(m)
+    x = u * u
+    P = [0.5, (1 - x / 2) if am == 1 else (am - 0.5) + (1 - am) * x]
+    if am == 1:
+        P += [(3 - x * (12 - 8 * x)) / 6, (5 - x * (60 - x * (120 - 64 * x))) / 10]
+    while len(P) <= n:
+        k = len(P)
+        A, B, C_ = forbes_abc(k - 1, am)
+        P.append((float(A) + float(B) * x) * P[k - 1] - float(C_) * P[k - 2])
+    f, g = forbes_fg(n, am)
+    Q = [1 / (2 * f[0])]
+    for k in range(1, n + 1):
+        Q.append((P[k] - g[k - 1] * Q[k - 1]) / f[k])
+    return Q[n] * u ** am * (math.cos(am * t) if m > 0 else math.sin(am * t))
+
+
 def textbook(fam, n, k, x):
     """exact / trig textbook value at a single rational point x; None if no independent formula"""
     if fam == 'jacobi':
@@ -630,11 +703,23 @@ def correspondence(ctx):
         lines.append(fline('hopkins', [a, b, c], [t, H], flat))
         meta.append(('hopkins', (a, b, c), (t, H), lname, pts))
 
+    # 2D-Q (Forbes): every (n, m) incl. m = 0 (delegation to Qbfs), |m| = 1 (special seeds, loop from 4) and |m| >= 2 (loop from 2)
+    for n in range(0, scale(14, 26)):
+        for m in range(-scale(6, 10), scale(6, 10) + 1):
+            if not deep and abs(m) > 2 and (n + m) % 2:
+                continue
+            t = float(dyadic(rng, -3, 3, ()))
+            lay = layouts(rng, 0, 1)
+            lname, pts = lay[(n + m) % len(lay)]
+            flat = np.asarray(pts, dtype=float).ravel()
+            lines.append(fline('q2d', [n, m], [t], flat))
+            meta.append(('q2d', (n, m), (t,), lname, pts))
+
     rep = C.lean_driver('C07', lines)
     for (fam, n, k, lname, pts), r in zip(meta, rep):
         case = {'family': fam, 'order': n, 'params': list(k), 'layout': lname,
                 'points': np.asarray(pts, dtype=float).ravel().tolist()[:6]}
-        nontriv = (n >= 2) if isinstance(n, int) else (n[0] >= 2 if fam == 'zern' else sum(abs(v) for v in n) >= 2)
+        nontriv = (n >= 2) if isinstance(n, int) else (n[0] >= 2 if fam in ('zern', 'q2d') else sum(abs(v) for v in n) >= 2)
         ctx.case(f'value:{fam}', case, nontrivial=nontriv, tag=lname)
         if r == 'bad-op':
             raise C.ToolError(f'driver rejected {case}')
@@ -645,6 +730,9 @@ def correspondence(ctx):
             elif fam == 'zern':
                 tt = np.full(np.shape(pts), k[0]) if isinstance(pts, np.ndarray) else k[0]
                 out = p.zernike_nm(n[0], n[1], pts, tt, norm=bool(n[2]))
+            elif fam == 'q2d':
+                tt = np.full(np.shape(pts), k[0]) if isinstance(pts, np.ndarray) else k[0]
+                out = p.Q2d(n[0], n[1], pts, tt)
             elif fam == 'xy':
                 yy = np.full(np.shape(pts), k[0]) if isinstance(pts, np.ndarray) else k[0]
                 out = p.xy(n[0], n[1], np.asarray(pts, dtype=float), np.asarray(yy, dtype=float), cartesian_grid=False)
@@ -718,6 +806,20 @@ def correspondence(ctx):
         out = _try(ctx, 'textbook:zernike', case, lambda: p.zernike_nm(n, m, r, np.full_like(r, t), norm=True))
         if out is not _FAILED and not close(out, rad * az * nrm):
             ctx.pred_fail('textbook:zernike', case, f'zernike_nm({n},{m}) differs from norm * R_n^m(r) * cos/sin(m t)')
+
+    # 2D-Q against the harness' own transcription of Forbes' appendix A (exact F, G, A, B, C; double precision f, g, P, Q)
+    for n in range(0, scale(12, 22)):
+        for m in [q for q in range(-scale(5, 9), scale(5, 9) + 1) if q != 0]:
+            u = np.clip(dyadic(rng, 0, 1, (3,)), 1 / 64, 63 / 64)
+            t = float(dyadic(rng, -3, 3, ()))
+            case = {'family': 'q2d', 'order': [n, m], 'params': [t], 'points': u.tolist()}
+            ctx.case('textbook:q2d', case, nontrivial=n >= 2, tag='m1' if abs(m) == 1 else 'm>=2')
+            out = _try(ctx, 'textbook:q2d', case, lambda: p.Q2d(n, m, u, np.full_like(u, t)))
+            if out is _FAILED:
+                continue
+            want = [q2d_forbes(n, m, float(v), t) for v in u]
+            if not close(out, want, 1e-8):
+                ctx.pred_fail('textbook:q2d', case, f'Q2d({n},{m},u,{t}) = {np.asarray(out).tolist()} but Forbes\' definition (A.1-A.18) gives {want} at u = {u.tolist()}')
 
     # ---------------- 2a. integer / float32 coordinates, meshgrids with the default flags, array-valued field coordinate, 2D-Q conventions
     _coverage_predicates(ctx, p, scale)
@@ -815,9 +917,36 @@ def correspondence(ctx):
     for n in range(0, 40):
         lines.append(f'fgh {n}')
         meta.append(('fgh', n, None, None))
+    from prysm import mathops as MO
+    for m in range(1, scale(8, 12) + 1):
+        for n in range(0, scale(16, 30)):
+            lines.append(f'q2dFG {n} {m}')
+            meta.append(('q2dFG', n, m, None))
+            if n >= 1 and m >= 2:
+                lines.append(f'q2dgam {n} {m}')
+                meta.append(('q2dgam', n, m, None))
+            if n >= 1 and (n, m) != (1, 1):          # (A.3) has D = 0 at n = m = 1: never requested by Q2d
+                lines.append(f'q2dabc {n} {m}')
+                meta.append(('q2dabc', n, m, None))
     rep = C.lean_driver('C07', lines)
     for (kind, n, a, b), r in zip(meta, rep):
         model = [C.w2f(s) for s in r.split()]
+        if kind.startswith('q2d'):
+            m = a
+            cs = {'n': n, 'm': m}
+            item = {'q2dFG': 'coeff:q2d-FGfg', 'q2dgam': 'coeff:q2d-gamma', 'q2dabc': 'coeff:q2d-abc'}[kind]
+            ctx.case(item, cs, nontrivial=n >= 1, tag='m1' if m == 1 else 'm>=2')
+            call = {'q2dFG': lambda: [float(Q.F_q2d(n, m)), float(Q.G_q2d(n, m)), float(Q.f_q2d(n, m)), float(Q.g_q2d(n, m))],
+                    'q2dgam': lambda: [float(MO.gamma(n, m))], 'q2dabc': lambda: [float(v) for v in Q.abc_q2d(n, m)]}[kind]
+            out = _try(ctx, item, cs, call, disagree=True)
+            if out is not _FAILED and not close(out, model, 1e-10):
+                ctx.disagree(item, cs, out, model)
+            if out is not _FAILED and kind != 'q2dgam':
+                F_, G_ = forbes_FG(n, m)
+                want = [float(v) for v in forbes_abc(n, m)] if kind == 'q2dabc' else [float(F_), float(G_)]
+                if not close(out[:len(want)], want, 1e-10):
+                    ctx.pred_fail(item, cs, f'{kind[3:]}({n},{m}) = {out[:len(want)]} but Forbes (A.3 / A.13 / A.15) gives {want}')
+            continue
         if kind == 'abc':
             ctx.case('coeff:abc', {'n': n, 'alpha': a, 'beta': b}, nontrivial=True)
             out = _try(ctx, 'coeff:abc', {'n': n, 'alpha': a, 'beta': b}, lambda: J.recurrence_abc(n, a, b), disagree=True)
@@ -1044,6 +1173,10 @@ def _check_one(p, fam, n, k, x):
             am = abs(m)
             az = 1.0 if m == 0 else (math.sin(am * t) if m < 0 else math.cos(am * t))
             tb = float(zernike_radial_explicit(nn, am, Fr(x))) * az * math.sqrt(2 * (nn + 1) / (1 + (1 if m == 0 else 0)))
+        elif fam == 'q2d':
+            nn, m = n
+            out = float(np.asarray(p.Q2d(nn, m, np.array([x]), np.array([k[0]])))[0])
+            tb = textbook('qbfs', nn, (), Fr(x)) if m == 0 else q2d_forbes(nn, m, float(x), float(k[0]))
         elif fam == 'xy':
             out = float(p.xy(n[0], n[1], np.array([x]), np.array([k[0]]), cartesian_grid=False)[0])
             tb = x ** n[0] * k[0] ** n[1]
@@ -1082,6 +1215,12 @@ def search(ctx, hints):
                     d = _check_one(p, 'zern', (n, m), (0.75,), x)
                     if d:
                         return {'item': 'textbook:zernike', 'input': {'family': 'zern', 'order': [n, m], 'params': [0.75], 'x': x}, 'detail': d}
+    for n in range(0, 13):
+        for m in (1, -1, 2, -2, 3, -3, 4, 5, -6, 0):
+            for x in (0.5, 0.875):
+                d = _check_one(p, 'q2d', (n, m), (0.75,), x)
+                if d:
+                    return {'item': 'textbook:q2d', 'input': {'family': 'q2d', 'order': [n, m], 'params': [0.75], 'x': x}, 'detail': d}
     for (m, n) in itertools.product(range(6), repeat=2):
         d = _check_one(p, 'xy', (m, n), (0.75,), -1.5)
         if d:
